@@ -31,6 +31,7 @@ CAN = 0xC3
 
 
 _NSTREAM = [0]
+_LASTKW = [{}]
 
 
 def make_stream(comp, payload, itemsize, cbs):
@@ -40,7 +41,8 @@ def make_stream(comp, payload, itemsize, cbs):
     # the writer's documented options (shuffle filter, explicit type size) change the frames' contents, never their framing
     k = _NSTREAM[0]
     _NSTREAM[0] += 1
-    kw = [{}, dict(shuffle='bitshuffle'), dict(shuffle=None), dict(typesize=1), dict(typesize=4, shuffle='shuffle'), dict(clevel=5)][k % 6]
+    kw = [{}, dict(shuffle='bitshuffle'), dict(shuffle=None), dict(typesize=1), dict(typesize=4, shuffle='shuffle'), dict(clevel=5), dict(typesize=8)][k % 7]
+    _LASTKW[0] = kw
     return list(comp.compress(data, compression_block_size=cbs, **kw))
 
 
@@ -150,7 +152,11 @@ def check(run):
             payload = bytes(nel * itemsize)
         else:
             payload = (np.arange(nel * itemsize) % 251).astype(np.uint8).tobytes()
-        frames = make_stream(comp, payload, itemsize, cbs)
+        try:
+            frames = make_stream(comp, payload, itemsize, cbs)
+        except Exception as e:
+            run.violation('writer-raises-' + type(e).__name__, dict(error=f'{type(e).__name__}: {e}'[:200], itemsize=itemsize, cbs=cbs, nel=nel, writer_options=repr(_LASTKW[0])))
+            continue
         stream = b''.join(frames)
         # frame-writer check: big-endian uint32 length + frame
         pos = 0
@@ -272,6 +278,22 @@ def check(run):
                 first = next((i for i in range(0, len(payload), cbs) if bytes(ob[i : i + cbs]) != payload[i : i + cbs]), None)
                 run.violation('writer-threads-round-trip-differs', dict(returned=int(ret), first_differing_block=None if first is None else first // cbs, **desc))
                 break
+    # one frame larger than 4 MiB (an incompressible block with compression_block_size above the 4 MiB default), cut inside the frame
+    big = rng.integers(0, 256, 6 * (1 << 20) + 12345, dtype=np.uint8)
+    bigframes = list(comp.compress(memoryview(big), compression_block_size=8 * (1 << 20)))
+    bigstream = b''.join(bytes(f) for f in bigframes)
+    for cuts in ([], [len(bigstream) // 2], [3, len(bigstream) - 5], [1 << 22, (1 << 22) + 16, (1 << 22) + 17]):
+        ob = np.zeros(len(big), dtype=np.uint8)
+        run.ev()
+        run.nt(('big-frame', tuple(cuts)))
+        try:
+            ret = comp.decompress(iter(split(bigstream, cuts)), ob.data)
+        except Exception as e:
+            run.violation('chunking-' + type(e).__name__, dict(error=f'{type(e).__name__}: {e}'[:200], frame_bytes=len(bigstream) - 4, cuts=cuts))
+            continue
+        if ret != len(big) or not np.array_equal(ob, big):
+            run.violation('chunking-wrong-bytes', dict(frame_bytes=len(bigstream) - 4, cuts=cuts, returned=int(ret)))
+    del big, bigstream, bigframes
     # two decompressions in flight on the one compressor object that asdf keeps per process: the chunk source of the outer
     # stream runs a complete decompression of another stream between two of its chunks (both split inside frames)
     multi = [S for S in streams if len(S['stream']) > 40 and S['nel'] > 0]
